@@ -7,6 +7,12 @@ exit 0: the counterexample reproduces (function returns falsy or raises) -> genu
 exit 3: it does not reproduce (spurious: engine model fault)
 exit 4: the arguments do not satisfy the harness precondition natively
 exit 5: replay machinery error
+
+With "history": true in FILE.json the question is another one: the call passes on its own (exit 3 above) - does it still
+pass when one *earlier call* of the same harness function came first?  The candidates for the earlier call are the
+counterexample's neighbours (one argument changed: an int moved by up to 3 or set to 0..3, a bool flipped); each is tried
+in a forked child (fresh module state).  exit 0 and "history": [earlier, call] when the verdict of the call depends on the
+earlier one - the property must hold for every history - otherwise exit 3.
 Prints one JSON line describing the outcome.
 """
 from __future__ import annotations
@@ -55,6 +61,8 @@ def main(argv: list) -> int:
             out.update(outcome="precondition-not-met", detail=f"{m.group(1)}: {type(e).__name__}: {e}")
             print(json.dumps(out))
             return 4
+    if rec.get("history"):
+        return _history(fn, bound, out)
     called = set()
     if trace:
         repo = os.environ.get("VERIF_REPO", "/repo")
@@ -90,6 +98,79 @@ def main(argv: list) -> int:
         pass
     print(json.dumps(out, default=repr))
     return code
+
+
+def _neighbours(args: tuple) -> list:
+    outl = []
+    for k, v in enumerate(args):
+        alts: list = []
+        if isinstance(v, bool):
+            alts = [not v]
+        elif isinstance(v, int):
+            alts = [x for x in dict.fromkeys([v - 1, v + 1, v - 2, v + 2, v - 3, v + 3, 0, 1, 2, 3]) if x != v]
+        for x in alts:
+            outl.append(args[:k] + (x,) + args[k + 1:])
+    return outl[:80]
+
+
+def _history(fn, bound, out: dict) -> int:  # noqa: ANN001
+    """Fork one child per candidate earlier call; the child runs [earlier, call] and reports the call's verdict."""
+    import inspect as _inspect
+
+    doc = _inspect.getdoc(fn) or ""
+    pres = [m.group(1) for m in re.finditer(r"^\s*pre:\s*(.+)$", doc, re.M)]
+    names = list(bound.arguments.keys())
+    mod = sys.modules[fn.__module__]
+    args = tuple(bound.args)
+    for cand in _neighbours(args):
+        try:
+            if not all(eval(p, vars(mod), dict(zip(names, cand))) for p in pres):  # noqa: S307
+                continue
+        except BaseException:  # noqa: BLE001
+            continue
+        r, w = os.pipe()
+        pid = os.fork()
+        if pid == 0:
+            os.close(r)
+            verdict = "passes"
+            try:
+                try:
+                    fn(*cand)
+                except Exception:  # noqa: BLE001
+                    pass
+                from vlib import hs as _hs
+
+                del _hs.WHY[:]
+                try:
+                    if not fn(*args):
+                        verdict = "fails"
+                except Exception as e:  # noqa: BLE001
+                    verdict = "fails"
+                    _hs.WHY.append(f"raised {type(e).__name__}: {e}")
+                os.write(w, json.dumps({"verdict": verdict, "why": [str(x)[:400] for x in _hs.WHY[-4:]]}).encode())
+            finally:
+                os._exit(0)
+        os.close(w)
+        data = b""
+        while True:
+            chunk = os.read(r, 65536)
+            if not chunk:
+                break
+            data += chunk
+        os.close(r)
+        os.waitpid(pid, 0)
+        try:
+            res = json.loads(data.decode())
+        except Exception:  # noqa: BLE001
+            continue
+        if res.get("verdict") == "fails":
+            out.update(outcome="fails", returned="False after an earlier call (passes on its own)",
+                       history=[repr(cand), repr(args)], why=res.get("why"))
+            print(json.dumps(out, default=repr))
+            return 0
+    out.update(outcome="passes", returned="True after every candidate earlier call")
+    print(json.dumps(out, default=repr))
+    return 3
 
 
 if __name__ == "__main__":
